@@ -83,6 +83,11 @@ def run(rng):
         rows += [np.clip(prof[rng.randrange(len(prof))] + rng.choice([-0.02, -0.01, 0.01, 0.02]), 0, 1) for _ in range(n - lone)]
         X = np.array(rows)
         X[rng.randrange(n), rng.randrange(m)] += 0.03
+        # no constant row or column (normalisation divides by the range; constant features are outside the quantifier)
+        ramp = np.array([[((3 * i + 5 * j) % 7) / 7 for j in range(m)] for i in range(n)])
+        X = np.clip(X + np.where(X < 0.5, 0.003, -0.003) * ramp, 0, 1)
+        while np.ptp(X, axis=0).min() < 1e-6 or np.ptp(X, axis=1).min() < 1e-6:
+            X[rng.randrange(n), rng.randrange(m)] = rng.random()
         eta = -1.0
         with contextlib.redirect_stdout(io.StringIO()):
             ma = artlib.TopoART(artlib.FuzzyART(rho=rng.choice([0.7, 0.8, 0.9]), alpha=1e-2, beta=1.0), beta_lower=0.5, tau=rng.choice([2, 3]), phi=2)
